@@ -186,10 +186,19 @@ func (g *Gen) pureRec(fn *ssa.Function, depth int) bool {
 				}
 				callee := x.Call.StaticCallee()
 				if callee == nil {
+					if x.Call.IsInvoke() {
+						nm := "(" + shortTypeFull(x.Call.Value.Type()) + ")." + x.Call.Method.Name()
+						if fc := g.cs.Funcs[nm]; fc != nil && fc.HasMod && fc.ModNone {
+							continue
+						}
+					}
 					ok = false
 					continue
 				}
 				if _, noop := isNoopCallee(callee.String()); noop {
+					continue
+				}
+				if op, isAtomic := atomicKind(callee.String()); isAtomic && op == "Load" {
 					continue
 				}
 				if fc := g.cs.Funcs[callee.String()]; fc != nil && fc.HasMod && fc.ModNone {
@@ -402,6 +411,11 @@ func collectWatches(e Expr, w map[string]bool) {
 				w["calls "+normAnchor(s.Val)] = true
 			}
 		}
+		if id, ok := x.Fun.(*EIdent); ok && id.Name == "lastret" && len(x.Args) == 1 {
+			if s, ok := x.Args[0].(*EStr); ok {
+				w["lastret "+normAnchor(s.Val)] = true
+			}
+		}
 		for _, a := range x.Args {
 			collectWatches(a, w)
 		}
@@ -438,7 +452,9 @@ func (c *FnCtx) setupEntry() {
 		c.setVal(fv, Val{T: n, Ty: fv.Type()})
 	}
 	for k := range c.watch {
-		c.ghost[k] = Val{T: c.mode.idxLit(0), Ty: intTy}
+		if strings.HasPrefix(k, "calls ") {
+			c.ghost[k] = Val{T: c.mode.idxLit(0), Ty: intTy}
+		}
 	}
 	for _, l := range c.g.cs.Lemmas {
 		if l.Global && l.Axiom {
